@@ -14,6 +14,7 @@ clock at 2^64−1 as C05, see `C08_once_counterexample`):
 -/
 import SerfProofs.Lemmas.EventBuf
 import SerfModel.Model.QueryHandle
+import SerfModel.Gen.BufLocks
 namespace SerfProofs.C08
 open SerfModel SerfModel.Atomic SerfModel.EventBuf SerfModel.QueryHandle SerfProofs.EventBuf
 
@@ -188,5 +189,10 @@ theorem C08_internal_hidden (evs : List AppEv) :
   refine ⟨?_, ?_, List.filter_sublist⟩
   · intro e he; simpa [forwardedToApp] using (List.mem_filter.1 he).2
   · intro e he hi; exact List.mem_filter.2 ⟨he, by simp [hi]⟩
+
+
+/-- Source-tied obligation: `handleQuery` runs its whole check-and-record section under the exclusive
+`queryLock`, which makes the sequential model's step one atomic action under concurrent deliveries. -/
+theorem C08_handler_holds_lock : SerfModel.Gen.BufLocks.handleQuery.wholeBodyExclusive = true := by decide
 
 end SerfProofs.C08
